@@ -170,6 +170,16 @@ def presentations(values, rng):
     rev = numpy.full(n + 8, 0xEFEFEFEF, dtype=U32)
     rev[4:4 + n] = base[::-1]
     yield "reversed", rev[4:4 + n][::-1]
+    # the uint32 field of a packed record array: byte stride 6 (not a multiple of the item size), elements unaligned,
+    # two foreign bytes (0xA5A5) between consecutive elements; and the same field read backwards
+    rec = numpy.zeros(n + 2, dtype=[("k", "<u2"), ("v", "<u4")])
+    rec["k"] = 0xA5A5
+    rec["v"] = 0xA5A5A5A5
+    rec["v"][1:1 + n] = base
+    yield "record_field", rec["v"][1:1 + n]
+    rec2 = rec.copy()
+    rec2["v"][1:1 + n] = base[::-1]
+    yield "record_field_reversed", rec2["v"][1:1 + n][::-1]
 
 
 SENTINELS = (0xABABABAB, 0xCDCDCDCD, 0xEFEFEFEF)
